@@ -491,9 +491,7 @@ where
         #[cfg(transparencies_stretto_verif)]
         crate::verif::yield_point("clear.after_signal");
         #[cfg(transparencies_stretto_verif)]
-        crate::verif::yield_point("clear.after_policy_clear");
-        #[cfg(transparencies_stretto_verif)]
-        crate::verif::yield_point("clear.after_store_clear");
+        crate::verif::yield_point("clear.wait_ack");
         // A closed acknowledgement channel means the processor is gone (the cache is closing).
         let _ = ack_rx.recv().await;
 
@@ -764,8 +762,14 @@ where
         // discard what is buffered, then clear: nothing inserted before the clear() call
         // survives it, and nothing is left half applied.
         let res = CacheCleaner::new(self).clean().await;
+        #[cfg(transparencies_stretto_verif)]
+        crate::verif::yield_point("proc.clear.after_drain");
         self.policy.clear();
+        #[cfg(transparencies_stretto_verif)]
+        crate::verif::yield_point("proc.clear.after_policy_clear");
         self.store.clear();
+        #[cfg(transparencies_stretto_verif)]
+        crate::verif::yield_point("proc.clear.after_store_clear");
         self.metrics.clear();
         res
     }
@@ -950,12 +954,15 @@ where
     /// suspends (it selects with a default arm), so it is driven to completion here.
     pub fn step_clear(&mut self) -> Option<Result<(), CacheError>> {
         match self.processor.clear_rx.try_recv() {
-            Ok(_) => Some(
-                CacheCleaner::new(&mut self.processor)
-                    .clean()
+            Ok(ack) => {
+                let res = self
+                    .processor
+                    .handle_clear_event()
                     .now_or_never()
-                    .expect("the cleaner does not suspend"),
-            ),
+                    .expect("the cleaner does not suspend");
+                let _ = ack.try_send(());
+                Some(res)
+            }
             Err(_) => None,
         }
     }
